@@ -22,7 +22,7 @@ LEVEL = "exploration"
 ANCHORS = ["prov.model:ProvRecord.__eq__", "prov.model:ProvRecord.__hash__", "prov.model:ProvBundle.__eq__", "prov.model:ProvDocument.__eq__",
            "prov.identifier:Identifier.__eq__", "prov.identifier:Identifier.__hash__", "prov.identifier:QualifiedName.__hash__",
            "prov.model:Literal.__eq__", "prov.model:Literal.__hash__", "prov.identifier:Namespace.__eq__", "prov.identifier:Namespace.__hash__"]
-PRESERVING = ["permute", "reprefix", "duplicate", "rebuild_from_records", "json_roundtrip", "identity"]
+PRESERVING = ["permute", "reprefix", "duplicate", "rebuild_from_records", "json_roundtrip", "identity", "add_record_copies"]
 EDITS = ["alter_value", "add_value", "remove_value", "alter_formal", "alter_id", "toggle_id", "remove_record", "add_record",
          "add_empty_bundle", "remove_bundle", "move_record", "swap_kind", "rename_bundle", "value_kind"]
 PROVNS = monitors.PROVNS
@@ -99,6 +99,17 @@ def variant_preserving(kind, od, doc, r):
         return nd
     if kind == "json_roundtrip":
         return pm.ProvDocument.deserialize(content=doc.serialize(format="json"), format="json")
+    if kind == "add_record_copies":
+        # repeated identical records added to the *same live objects' document* (duplicates are content preserving)
+        nd = pm.ProvDocument(records=doc.get_records())
+        for rec in doc.get_records()[:3]:
+            nd.add_record(rec)
+        for b in doc.bundles:
+            nb = nd.bundle(b.identifier)
+            nb.update(b)
+            for rec in b.get_records()[:2]:
+                nb.add_record(rec)
+        return nd
     raise AssertionError(kind)
 
 
@@ -348,6 +359,30 @@ def judge(ctx, idx, case):
     judged_edit = 0
     variants = []
     compare(ctx, "self", d, d, problems)
+    # the same program built a second time while ==, != and hash() are used on the growing document ("unaffected by the path
+    # by which a document was built"): comparisons are observations, they must not leave anything behind (e.g. a stale cache)
+    def observe(i, op, out, res, st):
+        if r.random() < 0.5:
+            try:
+                recs = st.doc.get_records() + [x for b in st.doc.bundles for x in b.get_records()]
+                for x in recs:
+                    hash(x)
+                len(set(recs))
+                st.doc == st.doc
+                for b in st.doc.bundles:
+                    b == b
+            except Exception:
+                ctx.count("observed_build.observation_raised")
+    watched = interp.run(case["ops"], observe).doc
+    eq = compare(ctx, "preserving.observed_build", d, watched, problems)
+    ctx.count("variant.observed_build.%s" % ("equivalent" if eq else "NOT-equivalent"))
+    compare_records(ctx, d, watched, r, problems)
+    try:
+        dup = rebuild.from_ordered([(b, keys + keys[:2]) for b, keys in strict.ordered(watched)], "w")
+        # a document holding repeated copies is compared through sets of records: stale hashes would show here
+        compare(ctx, "preserving.observed_build_vs_duplicates", watched, dup, problems)
+    except pm.ProvException:
+        pass
     for kind in case["preserving"]:
         try:
             v = variant_preserving(kind, od, d, r)
